@@ -301,6 +301,11 @@ def _run(chk, tier, gdir):
                           {"kind": "case", "harness": "c16", "case": slim, "fail": fl, "obs": job["obs"] if job else None})
     if nids and nundec * 20 > nids:
         raise vlib.MachineryError("%d of %d identity values were not decidable within the rounding bound" % (nundec, nids))
+    summ = {}
+    for sg, _, _ in chk.violations:
+        k = "%s|%s|%s" % (sg.get("pred"), sg.get("op"), sg.get("detail"))
+        summ[k] = summ.get(k, 0) + 1
+    chk.extra["violation_summary"] = summ
     chk.traces = len(full)
     chk.extra["identity_values_judged"] = nids
     chk.extra["identity_values_undecidable"] = nundec
